@@ -407,16 +407,30 @@ def rule_byname(run):
     pairs = [(rd[s], wr[s]) for s in rd if rd.get(s) and wr.get(s)] + [(prog.func(T + a), prog.func(T + b)) for a, b in extra]
 
     def canon(fi, e):
-        t = norm(e)
+        """what the dictionary is, independent of how locals are called: 'self' (self.__dict__), '<kind>.__dict__' for the
+        attribute dictionary of an element of self.grid.<kind>list / self.grid.<kind>[...] / self.<kind>list, or 'local dict'"""
         # aliases: a local copy of a dictionary stands for the dictionary
-        for n in walk_no_nested(fi.node):
-            if isinstance(n, ast.Assign) and norm(n.targets[0]) == t and isinstance(n.value, ast.Call) and \
-               call_name(n.value) in ('copy', 'deepcopy', 'dict') and n.value.args:
-                t = norm(n.value.args[0])
-        t = re.sub(r'^self\.grid\.rocktype\[\w+\]\.__dict__$', 'rocktype.__dict__', t)
-        t = re.sub(r'^rt\.__dict__$', 'rocktype.__dict__', t)
-        t = re.sub(r'^blk\.__dict__$', 't2block.__dict__', t)
-        return t
+        if isinstance(e, ast.Name):
+            for n in walk_no_nested(fi.node):
+                if isinstance(n, ast.Assign) and norm(n.targets[0]) == e.id and isinstance(n.value, ast.Call) and \
+                   call_name(n.value) in ('copy', 'deepcopy', 'dict') and n.value.args:
+                    return canon(fi, n.value.args[0])
+            return 'local dict'
+        if isinstance(e, ast.Call) and call_name(e) == 'vars' and e.args: e = ast.Attribute(value=e.args[0], attr='__dict__', ctx=ast.Load())
+        if isinstance(e, ast.Attribute) and e.attr == '__dict__':
+            o = e.value
+            if isinstance(o, ast.Name) and o.id == 'self': return 'self'
+            kind = None
+            if isinstance(o, ast.Subscript) and isinstance(o.value, ast.Attribute): kind = o.value.attr            # self.grid.rocktype[name]
+            if isinstance(o, ast.Name):
+                for n in ast.walk(fi.node):
+                    if isinstance(n, ast.For) and isinstance(n.target, ast.Name) and n.target.id == o.id and isinstance(n.iter, ast.Attribute):
+                        kind = n.iter.attr[:-4] if n.iter.attr.endswith('list') else n.iter.attr                    # for rt in self.grid.rocktypelist
+                    if isinstance(n, ast.Assign) and norm(n.targets[0]) == o.id and isinstance(n.value, ast.Subscript) and \
+                       isinstance(n.value.value, ast.Attribute): kind = n.value.value.attr
+                if kind is None and o.id in fi.params: kind = 'param'
+            if kind: return kind + '.__dict__'
+        return norm(e)
     for r, w in pairs:
         rk, wk = {}, {}
         for fi, d, meth in ((r, rk, 'read_value_line'), (w, wk, 'write_value_line')):
@@ -446,7 +460,7 @@ def rule_byname(run):
                 names = list(tab[k][0])
                 keys = []
                 for t in st.targets[0].elts:
-                    if isinstance(t, ast.Subscript) and const_str(t.slice) is not None and norm(t.value) == wk[k][0]: keys.append(const_str(t.slice))
+                    if isinstance(t, ast.Subscript) and const_str(t.slice) is not None and canon(r, t.value) == wk[k][0]: keys.append(const_str(t.slice))
                     else: keys.append('')
                 key = 't2data %s :: positional read into the keys written by name' % k
                 if keys == names: run.ok(key, keys)
@@ -621,10 +635,51 @@ def rule_bin(run):
         visit(fi.node.body, {})
         return seq
     rs, ws = unroll(rd, 'readrec'), unroll(wr, 'writerec')
-    for f in ('fa', 'fb'):
+
+    def file_roles(fi):
+        """{local name: 'A' | 'B'} from `fa, fb = (open(filename) for filename in self.meshfilename)`"""
+        for st in walk_no_nested(fi.node):
+            if isinstance(st, ast.Assign) and isinstance(st.targets[0], ast.Tuple) and len(st.targets[0].elts) == 2 and \
+               isinstance(st.value, (ast.GeneratorExp, ast.ListComp)) and 'self.meshfilename' in norm(st.value.generators[0].iter):
+                return dict((e.id, r_) for e, r_ in zip(st.targets[0].elts, 'AB') if isinstance(e, ast.Name))
+        raise AnalysisError('%s: the two mesh files are not opened as `a, b = (... for filename in self.meshfilename)`' % fi.short)
+
+    def count_tokens(fi, method, roles_):
+        """{local name: 'A.0.0'}: the count variables, named by the header record they travel in (file, record, position)"""
+        tok, nrec = {}, {}
+        calls = sorted([c for c in ast.walk(fi.node) if isinstance(c, ast.Call) and call_name(c) == method and isinstance(c.func.value, ast.Name)
+                        and c.func.value.id in roles_], key=lambda c: (c.lineno, c.col_offset))
+        asg = dict((id(st.value), st) for st in ast.walk(fi.node) if isinstance(st, ast.Assign))
+        for c in calls:
+            r_ = roles_[c.func.value.id]
+            k = nrec.get(r_, 0); nrec[r_] = k + 1
+            if k > 0: continue                      # only the header record of each file carries counts
+            names = []
+            if method == 'readrec' and id(c) in asg and isinstance(asg[id(c)].targets[0], (ast.Tuple, ast.List)):
+                names = [e.id if isinstance(e, ast.Name) else None for e in asg[id(c)].targets[0].elts]
+            if method == 'writerec' and len(c.args) > 1:
+                v = c.args[1]
+                els = v.elts if isinstance(v, (ast.Tuple, ast.List)) else [v]
+                for e in els:
+                    if isinstance(e, ast.UnaryOp): e = e.operand
+                    names.append(e.id if isinstance(e, ast.Name) else None)
+            for j, nm in enumerate(names):
+                if nm is not None and nm not in tok: tok[nm] = '%s.%d.%d' % (r_, k, j)
+        return tok
+    rroles, wroles = file_roles(rd), file_roles(wr)
+    rtok, wtok = count_tokens(rd, 'readrec', rroles), count_tokens(wr, 'writerec', wroles)
+
+    def canon_seq(seq, roles_, tok):
+        out = []
+        for fv, sh, v in seq:
+            if sh is not None: sh = (sh[0], tok.get(sh[1], sh[1]))
+            out.append((roles_.get(fv, fv), sh, v))
+        return out
+    rs, ws = canon_seq(rs, rroles, rtok), canon_seq(ws, wroles, wtok)
+    for f in ('A', 'B'):
         r = [(sh,) for fv, sh, v in rs if fv == f]
         w = [(sh,) for fv, sh, v in ws if fv == f]
-        key = 't2data binary mesh :: record sequence of %s' % ('MESHA' if f == 'fa' else 'MESHB')
+        key = 't2data binary mesh :: record sequence of %s' % ('MESHA' if f == 'A' else 'MESHB')
         if None in [x[0] for x in r + w]:
             run.unknown(key, 'a record format is not literal', where=wr.where()); continue
         # reader may take alternative branches (rock names vs indices): compare the longest common prefix and require
@@ -640,7 +695,7 @@ def rule_bin(run):
             run.violated(key, 'record %d is read as %s but written as %s: every later array is misinterpreted'
                          % (i, rseq2[i] if i < len(rseq2) else None, wseq[i] if i < len(wseq) else None), where=wr.where())
     # array order in MESHA: volume, ahtx, pmx, cx, cy, cz | d1, d2, area, dircos, sigma | dirn
-    wa = [v for fv, sh, v in ws if fv == 'fa'][1:]
+    wa = [v for fv, sh, v in ws if fv == 'A'][1:]
     want = ["blkdata[:]['volume']", "blkdata[:]['ahtx']", "blkdata[:]['pmx']", "blkdata[:]['cx']", "blkdata[:]['cy']", "blkdata[:]['cz']",
             "condata[:]['d1']", "condata[:]['d2']", "condata[:]['area']", "condata[:]['dircos']", "condata[:]['sigma']", "condata[:]['dirn']"]
     key = 't2data binary mesh :: MESHA array order matches the reader (evol, aht, pmx, gcoord x3, del1, del2, area, beta, sig, isox)'
